@@ -726,8 +726,21 @@ def cosmetic(g, s, ns=""):
                     f["aliases"] = [f["name"] + "_alias"]
                 if r.random() < 0.2:
                     f["x-custom"] = {"k": [1, 2]}
+                if r.random() < 0.25:
+                    # a custom attribute of the FIELD that is spelled like an attribute the canonical form keeps for TYPES
+                    f[r.choice(["size", "items", "values", "symbols", "fields", "namespace", "logicalType", "precision"])] = \
+                        r.choice([12, "int", ["A", "B"], [{"name": "q", "type": "int"}], "x.y", {"type": "int"}])
                 fields.append(shuffle_keys(r, f))
             d["fields"] = fields
+        if r.random() < 0.2:
+            # an attribute that belongs to another kind of named type
+            foreign = {"record": ["size", "symbols", "items", "values"], "enum": ["size", "fields", "items", "values"],
+                       "fixed": ["symbols", "fields", "items", "values"]}[t]
+            d[r.choice(foreign)] = r.choice([7, ["X"], "long", [{"name": "zz", "type": "long"}]])
+    if t == "array" and r.random() < 0.15:
+        d[r.choice(["values", "symbols", "fields", "size", "name"])] = r.choice([3, "string", ["Q"]])
+    if t == "map" and r.random() < 0.15:
+        d[r.choice(["items", "symbols", "fields", "size", "name"])] = r.choice([3, "string", ["Q"]])
     if r.random() < 0.3:
         d["custom-attr"] = r.choice([1, "x", [1], {"a": None}])
     return shuffle_keys(r, d)
